@@ -113,8 +113,12 @@ pub fn observe(c: &c02::Case, format: Format, ops: &[(u8, u8)], rng_seed: u64) -
                 _ => {
                     let fs = dec.main_size();
                     let (iw, ih) = if f != 0 { (fs.width * 4 + 1, fs.height * 3) } else { (fs.width * 4, fs.height * 3) };
-                    let mut buf = vec![0xAAu8; iw as usize * ih as usize * 4];
-                    let res = dec.read_cube_map(ImageViewMut::new(&mut buf, Size::new(iw, ih), ColorFormat::RGBA_U8).unwrap());
+                    // half of the reads go into a view with padded rows (the faces are then cropped out of a non-contiguous view)
+                    let pad = if rng.below(2) == 0 { 0usize } else { 4 * (1 + rng.below(5) as usize) };
+                    let pitch = iw as usize * 4 + pad;
+                    let mut buf = vec![0xAAu8; if ih == 0 { 0 } else { pitch * (ih as usize - 1) + iw as usize * 4 }];
+                    let res = match catch(|| dec.read_cube_map(ImageViewMut::new_with(&mut buf, pitch, Size::new(iw, ih), ColorFormat::RGBA_U8).unwrap())) {
+                        Some(r) => r, None => { println!("IMPL-VIOLATION panic in read_cube_map into a {iw}x{ih} view with row pitch {pitch}"); Err(DecodingError::RectOutOfBounds) } };
                     // which cells were written, and with which array element?
                     let mut cl: Vec<i128> = Vec::new();
                     let mut n = 0;
@@ -122,7 +126,7 @@ pub fn observe(c: &c02::Case, format: Format, ops: &[(u8, u8)], rng_seed: u64) -
                         for &(cx, cy) in CELLS.iter() {
                             let mut cell = Vec::with_capacity((fs.width * fs.height * 4) as usize);
                             for y in 0..fs.height {
-                                let s = (((cy * fs.height + y) * iw + cx * fs.width) * 4) as usize;
+                                let s = (cy * fs.height + y) as usize * pitch + (cx * fs.width * 4) as usize;
                                 cell.extend_from_slice(&buf[s..s + fs.width as usize * 4]);
                             }
                             if cell.iter().any(|&b| b != 0xAA) {
